@@ -68,9 +68,32 @@ func diffWordsToRunes(doc *indexedDocument, start, end int) []rune {
 	runes := make([]rune, 0, end-start)
 
 	for _, t := range doc.Tokens[start:end] {
-		runes = append(runes, rune(t.ID))
+		runes = append(runes, tokenToRune(t.ID))
 	}
 	return runes
+}
+
+// The diff library turns rune slices into strings and back. That round trip
+// only preserves valid code points: every rune of the UTF-16 surrogate range
+// comes back as U+FFFD, which would make all words with an ID in that range
+// look alike. tokenToRune and runeToToken therefore skip that range.
+const (
+	surrogateMin  = 0xD800
+	surrogateSize = 0x800
+)
+
+func tokenToRune(id tokenID) rune {
+	if id >= surrogateMin {
+		return rune(id) + surrogateSize
+	}
+	return rune(id)
+}
+
+func runeToToken(r rune) tokenID {
+	if r >= surrogateMin+surrogateSize {
+		return tokenID(r - surrogateSize)
+	}
+	return tokenID(r)
 }
 
 // diffRunesToWords rehydrates the text in a diff from a string of word hashes to real words of text.
@@ -81,7 +104,7 @@ func diffRunesToWords(diffs []diffmatchpatch.Diff, dict *dictionary) []diffmatch
 		var sb strings.Builder
 
 		for i, r := range chars {
-			sb.WriteString(dict.getWord(tokenID(r)))
+			sb.WriteString(dict.getWord(runeToToken(r)))
 			if (i + 1) < len(chars) {
 				sb.WriteByte(' ')
 			}
